@@ -25,7 +25,7 @@ var (
 	reShortDecl = regexp.MustCompile(`(?:^|[\s{(;])([A-Za-z_][A-Za-z0-9_]*(?:\s*,\s*[A-Za-z_][A-Za-z0-9_]*)*)\s*:=`)
 	reVarDecl   = regexp.MustCompile(`\bvar\s+([A-Za-z_][A-Za-z0-9_]*)\b`)
 	reRecv      = regexp.MustCompile(`func\s*\(\s*([A-Za-z_][A-Za-z0-9_]*)\s+\*`)
-	reFuncParam = regexp.MustCompile(`\(\s*([A-Za-z_][A-Za-z0-9_]*)\s+(?:func\s*\(|mock\.[A-Z]|interface\s*\{)`)
+	reFuncParam = regexp.MustCompile(`\(\s*([A-Za-z_][A-Za-z0-9_]*)\s+(?:func\s*\(|mock\.[A-Z]|TESTIFY\.[A-Z]|interface\s*\{)`)
 	reAddImport = regexp.MustCompile(`AddImport\s+"([^"]+)"\s+"([^"]+)"`)
 	reLockOp    = regexp.MustCompile(`mock\.lock\{\{\s*\.Name\s*\}\}\.(Lock|Unlock|RLock|RUnlock)\(\)|mock\.calls\.\{\{\s*\.Name\s*\}\}\s*=\s*(append|nil)|=\s*mock\.calls\.\{\{\s*\.Name\s*\}\}`)
 )
@@ -50,6 +50,8 @@ func textOf(n parse.Node, b *strings.Builder) {
 			b.WriteString("IDX")
 		case strings.Contains(s, "$retArgs"):
 			b.WriteString("RETARGS")
+		case strings.TrimSpace(strings.Trim(s, "{}")) == "$testify":
+			b.WriteString("TESTIFY")
 		default:
 			b.WriteString("ACTION")
 		}
@@ -162,7 +164,15 @@ func templateFacts(src, name string) (locals, imports, funcs []string, text stri
 		imports = append(imports, m[2])
 	}
 	if strings.Contains(string(raw), `"github.com/stretchr/testify/mock"`) {
-		imports = append(imports, "github.com/stretchr/testify/mock")
+		dup := false
+		for _, i := range imports {
+			if i == "github.com/stretchr/testify/mock" {
+				dup = true
+			}
+		}
+		if !dup {
+			imports = append(imports, "github.com/stretchr/testify/mock")
+		}
 	}
 	fs, fields := map[string]bool{}, map[string]bool{}
 	calledFuncs(tree.Root, fs, fields)
